@@ -323,7 +323,10 @@ pub fn judge_path(prog: &Prog, class: Class, cfg: &HistCfg, path: &[PEvent], cra
         // dependency that is not a dependency on a reported resource (left behind by an earlier top-down or aborted
         // build, possibly the leading require of this very session).
         let rep_mask: u8 = reported.iter().fold(0, |m, r| m | (1 << *r));
-        let f1 = !entered.is_empty() && entered.iter().all(|t| an.stale_before_bottom_up(*t, rep_mask));
+        // (tasks entered by the probe that were not known before it are new tasks required by a re-executed stale
+        // task, not stale tasks themselves)
+        let stale: Vec<Tid> = entered.iter().copied().filter(|t| known.contains(t)).collect();
+        let f1 = !stale.is_empty() && stale.iter().all(|t| an.stale_before_bottom_up(*t, rep_mask));
         let _ = pre_mixed;
         for (oracle, what) in problems {
           let key = if f1 { "C03/stale-before-bottom-up" } else { "" };
